@@ -36,21 +36,21 @@ func init() {
 // follows, so that a posting line that is cut short shows up as a lost posting.
 
 type c03PostV struct {
-	Status                ast.Status
-	Virtual               ast.VirtualType
-	Account               string
-	Amt, Cost, Assert     c03AmtV
-	HasCost, IsTotal      bool
-	HasAssert, IsStrict   bool
-	Comment               string
-	NPost                 int
-	Acct1                 string
+	Status              ast.Status
+	Virtual             ast.VirtualType
+	Account             string
+	Amt, Cost, Assert   c03AmtV
+	HasCost, IsTotal    bool
+	HasAssert, IsStrict bool
+	Comment             string
+	NPost               int
+	Acct1               string
 }
 
 type c03PostCfg struct {
-	indN      int // 1: two blanks; 9: 1..8 blanks or a tab
-	statusN   int // 1: none; 3: none * !
-	virtN     int // 1: ordinary; 3: ordinary, ( ), [ ]
+	indN      int  // 1: two blanks; 9: 1..8 blanks or a tab
+	statusN   int  // 1: none; 3: none * !
+	virtN     int  // 1: ordinary; 3: ordinary, ( ), [ ]
 	svSplit   bool // a status only with an ordinary account (status x virtual is not a product)
 	freeAcct  bool
 	nSeg      int // at most nSeg segments (>= 2)
@@ -61,8 +61,8 @@ type c03PostCfg struct {
 	syms      []int // symbol kinds offered (lowername only on the right)
 	nSym      int
 	shapes    []c03NumShape
-	costN     int // 1: none; 3: none @ @@
-	assertN   int // 1: none; 3: none = ==
+	costN     int   // 1: none; 3: none @ @@
+	assertN   int   // 1: none; 3: none = ==
 	costForms []int // amount forms, symbols, shapes of the cost amount
 	costSyms  []int
 	assForms  []int // ... of the assertion amount
